@@ -15,7 +15,7 @@ Has(r, k) == k \in DOMAIN r
 ContentOf(r) ==
     [n \in {r.files[i].name : i \in 1..Len(r.files)} |->
         LET f == r.files[CHOOSE i \in 1..Len(r.files) : r.files[i].name = n]
-        IN [tree |-> IF Has(f, "tree") THEN NormTree(f.tree) ELSE <<>>, diff |-> IF Has(f, "diff") THEN NormD(f.diff) ELSE <<>>]]
+        IN [tree |-> IF Has(f, "tree") THEN NormTree(f.tree) ELSE <<>>, diff |-> IF Has(f, "diff") THEN D!Norm(NormD(f.diff)) ELSE <<>>]]   \* the diff travels as text: Edit(a,a) is read as None
 IsRes(g) == "ok" \in DOMAIN g /\ "v" \in DOMAIN g
 NodeOf(s, v) == CHOOSE i \in 1..Len(s.nodes) : s.nodes[i] = v
 VNodes(s) == {s.nodes[i] : i \in 1..Len(s.nodes)}
